@@ -7,4 +7,13 @@ cd "$(dirname "$0")/mc"
 cargo build --offline --profile checked
 cargo build --offline --profile unopt -p mc-walk
 cargo build --offline --profile plain -p mc-walk
+# the shuttle-instrumented copy of the library for C16's schedules-sync family (non-fatal here:
+# ./check C16 rebuilds it from /repo's working tree on every run and reports if it cannot)
+root="$(cd .. && pwd)"
+mkdir -p "$root/target/sx"
+if python3 "$root/tools/gen_sx.py" /repo "$root/target/sx/asefile" >"$root/target/sx/gen.json" && (cd "$root/mc-sx" && CARGO_TARGET_DIR="$root/target" cargo build --offline --profile checked); then
+  echo ok >"$root/target/sx/status"
+else
+  echo "warning: mc-sx did not build" >&2
+fi
 echo "setup ok"
